@@ -212,7 +212,7 @@ fn check_output(res: &RunResult, vals: &[u128], shards: usize) -> Result<Vec<u12
     Ok(all)
 }
 
-fn honest(env: &Env, src: &mut Src<'_>) -> CaseResult {
+pub fn honest(env: &Env, src: &mut Src<'_>) -> CaseResult {
     let (cfg, vals, mut labels) = gen_cfg(env, src, None);
     let cj = cfg_json(&cfg, &vals);
     let res = run_shuffle(&cfg, &vals);
